@@ -443,7 +443,7 @@ def polygon(rng, n=None):
     return pts
 
 
-def gen_config(rng, geom=None, pipe=None, fluid=None, cap=None, cont=None, loads=None):
+def gen_config(rng, geom=None, pipe=None, fluid=None, cap=None, cont=None, loads=None, flow=None, rotations=None):
     """A configuration in the documented domain, as the list of API calls [(setter, kwargs)] plus a
     descriptor.  `loads` is a list of 8760 numbers or a Rep."""
     geom = geom or rng.choice(GEOMS)
@@ -507,12 +507,14 @@ def gen_config(rng, geom=None, pipe=None, fluid=None, cap=None, cont=None, loads
     else:
         lo = rng.choice([-90, -90.0, -60, -45.5, -30, 0, rng.randrange(-180, 1) / 2])
         hi = rng.choice([90, 90.0, 60.0, 45.5, 30, 0, rng.randrange(0, 181) / 2])
+        if rotations is not None:
+            lo, hi = rotations
         calls.append(("set_geometry_constraints_rowwise", {
             "perimeter_spacing_ratio": None if geom == "ROWWISE_NORATIO" else awkward(rng, 0.2, 1.2), "max_spacing": bmin + awkward(rng, 0, 10),
             "min_spacing": bmin, "spacing_step": awkward(rng, 0.05, 1), "max_rotation": hi, "min_rotation": lo, "rotate_step": awkward(rng, 0.5, 15),
             "property_boundary": polygon(rng), "no_go_boundaries": [polygon(rng, 3) for _ in range(rng.randint(0, 2))]}))
-    calls.append(("set_design", {"flow_rate": awkward(rng, 0.05, 2.0), "flow_type_str": recase(rng, rng.choice(["BOREHOLE", "SYSTEM"]))}))
-    desc = {"geom": geom, "pipe": pipe, "fluid": fluid, "cap": cap, "cont": cont}
+    calls.append(("set_design", {"flow_rate": awkward(rng, 0.05, 2.0), "flow_type_str": recase(rng, flow or rng.choice(["BOREHOLE", "SYSTEM"]))}))
+    desc = {"geom": geom, "pipe": pipe, "fluid": fluid, "cap": cap, "cont": cont, "flow": calls[-1][1]["flow_type_str"].upper()}
     return calls, desc
 
 
@@ -672,3 +674,111 @@ def mutants(doc, rng):
     out.append(("heat-pump-loads-short", put("loads", "heat_pump_loads", [0.0] * 10)))
     out.append(("valid-unchanged", copy.copy(doc)))
     return out
+
+
+# ----------------------------------------------------------------------------- the configuration handed to the setters
+PIPE_SETTERS = {"set_single_u_tube_pipe": "SINGLEUTUBE", "set_double_u_tube_pipe_parallel": "DOUBLEUTUBEPARALLEL",
+                "set_double_u_tube_pipe_series": "DOUBLEUTUBESERIES", "set_coaxial_pipe": "COAXIAL"}
+GEOM_SETTERS = {"set_geometry_constraints_near_square": "NEARSQUARE", "set_geometry_constraints_rectangle": "RECTANGLE",
+                "set_geometry_constraints_bi_rectangle": "BIRECTANGLE", "set_geometry_constraints_bi_zoned_rectangle": "BIZONEDRECTANGLE",
+                "set_geometry_constraints_bi_rectangle_constrained": "BIRECTANGLECONSTRAINED", "set_geometry_constraints_rowwise": "ROWWISE"}
+
+
+def _nested(polys):
+    """The documented reading of a constrained-geometry boundary argument: one polygon or a list of polygons."""
+    if len(polys) > 0 and isinstance(polys[0][0], (int, float)) and not isinstance(polys[0][0], bool):
+        return [polys]
+    return polys
+
+
+def api_config_file(calls):
+    """What the input file of this configuration has to say, computed from the harness's own record of every setter
+    argument (the last call of each kind wins) and the documented meaning of the file's fields — no tool code, no
+    manager state.  The `version` entry is left out."""
+    last = {}
+    for s, kw in calls:
+        kw = {k: (v.expand() if isinstance(v, Rep) else v) for k, v in kw.items()}
+        if s in PIPE_SETTERS:
+            last["pipe"] = (s, kw)
+        elif s in GEOM_SETTERS:
+            last["geom"] = (s, kw)
+        else:
+            last[s] = kw
+    f, gr, so, bh = last["set_fluid"], last["set_grout"], last["set_soil"], last["set_borehole"]
+    sim, des = last["set_simulation_parameters"], last["set_design"]
+    ps, pk = last["pipe"]
+    pipe = {k: v for k, v in pk.items()}
+    pipe["arrangement"] = PIPE_SETTERS[ps]
+    gs, gk = last["geom"]
+    geo = {k: v for k, v in gk.items()}
+    geo["method"] = GEOM_SETTERS[gs]
+    if gs == "set_geometry_constraints_bi_rectangle_constrained":
+        geo["property_boundary"] = _nested(gk["property_boundary"])
+        geo["no_go_boundaries"] = _nested(gk["no_go_boundaries"])
+    if gs == "set_geometry_constraints_rowwise" and gk.get("perimeter_spacing_ratio") is None:
+        geo.pop("perimeter_spacing_ratio", None)
+    geo["max_height"], geo["min_height"] = sim["max_height"], sim["min_height"]
+    design = {"flow_rate": des["flow_rate"], "flow_type": des["flow_type_str"].upper(), "max_eft": sim["max_eft"], "min_eft": sim["min_eft"]}
+    if sim.get("max_boreholes") is not None:
+        design["max_boreholes"] = sim["max_boreholes"]
+    if sim.get("continue_if_design_unmet") is True:
+        design["continue_if_design_unmet"] = True
+    return {
+        "fluid": {"fluid_name": f["fluid_name"].upper(), "concentration_percent": f["concentration_percent"], "temperature": f["temperature"]},
+        "grout": {"conductivity": gr["conductivity"], "rho_cp": gr["rho_cp"]},
+        "soil": {"conductivity": so["conductivity"], "rho_cp": so["rho_cp"], "undisturbed_temp": so["undisturbed_temp"]},
+        "pipe": pipe,
+        "borehole": {"buried_depth": bh["buried_depth"], "diameter": bh["diameter"]},
+        "simulation": {"num_months": sim["num_months"]},
+        "geometric_constraints": geo,
+        "design": design,
+        "loads": {"ground_loads": list(last["set_ground_loads_from_hourly_list"]["hourly_ground_loads"])},
+    }
+
+
+def api_config_state(calls):
+    """The same record as the attributes a manager holding this configuration must show (subset of dump_state:
+    everything that has one documented value; radii are the given diameters halved)."""
+    f = api_config_file(calls)
+    p, g, d = f["pipe"], f["geometric_constraints"], f["design"]
+    if p["arrangement"] == "COAXIAL":
+        pipe = {"r_in": [p["inner_pipe_d_in"] / 2.0, p["inner_pipe_d_out"] / 2.0], "r_out": [p["outer_pipe_d_in"] / 2.0, p["outer_pipe_d_out"] / 2.0],
+                "k": [p["conductivity_inner"], p["conductivity_outer"]], "roughness": p["roughness"], "rhoCp": p["rho_cp"]}
+    else:
+        pipe = {"r_in": p["inner_diameter"] / 2.0, "r_out": p["outer_diameter"] / 2.0, "s": p["shank_spacing"], "k": p["conductivity"],
+                "roughness": p["roughness"], "rhoCp": p["rho_cp"]}
+    geom = {}
+    ren = {"b_max": "b_max_x", "min_rotation": "min_rotation_deg", "max_rotation": "max_rotation_deg"}
+    for k, v in g.items():
+        if k in ("method", "max_height", "min_height"):
+            continue
+        geom[ren.get(k, k)] = v
+    if g["method"] == "ROWWISE" and "perimeter_spacing_ratio" not in g:
+        geom["perimeter_spacing_ratio"] = None
+    return {
+        "fluid": {"fluid_type": f["fluid"]["fluid_name"], "concentration_percent": f["fluid"]["concentration_percent"], "temperature": f["fluid"]["temperature"]},
+        "grout": {"k": f["grout"]["conductivity"], "rhoCp": f["grout"]["rho_cp"]},
+        "soil": {"k": f["soil"]["conductivity"], "rhoCp": f["soil"]["rho_cp"], "ugt": f["soil"]["undisturbed_temp"]},
+        "pipe": pipe,
+        "pipe_type": p["arrangement"],
+        "borehole": {"D": f["borehole"]["buried_depth"], "r_b": f["borehole"]["diameter"] / 2.0},
+        "sim": {"end_month": f["simulation"]["num_months"], "max_EFT_allowable": d["max_eft"], "min_EFT_allowable": d["min_eft"],
+                "max_height": g["max_height"], "min_height": g["min_height"], "max_boreholes": d.get("max_boreholes"),
+                "continue_if_design_unmet": bool(d.get("continue_if_design_unmet", False))},
+        "loads": f["loads"]["ground_loads"],
+        "geom": geom,
+        "design": {"V_flow": d["flow_rate"], "flow_type": d["flow_type"]},
+    }
+
+
+def first_diff_subset(want, got, path=""):
+    """first_diff restricted to the keys of `want` (dicts) — `got` may carry more."""
+    if isinstance(want, dict) and isinstance(got, dict):
+        for k in sorted(want):
+            if k not in got:
+                return f"{path}/{k}: missing"
+            d = first_diff_subset(want[k], got[k], f"{path}/{k}")
+            if d:
+                return d
+        return None
+    return first_diff(want, got, path)
